@@ -113,6 +113,11 @@ class Stream:
 def _check(F, st, model, node, desc, ops, ctx, where):
     data = st.value()
     ctx.evals += 1
+    if model.header is None and data:
+        try:
+            model.header = data[:refavro.parse_container(data, decode_records=False).header_len]
+        except refavro.RefError:
+            pass
     if model.header is not None and data[:len(model.header)] != model.header:
         raise Violation("header", "header-changed", detail={"at": where, "ops": ops}, scenario=desc)
     Y, exc, stage = common.read_all(lambda: F.reader(io.BytesIO(data)))
@@ -200,13 +205,18 @@ def _history(F, ch, ctx, st):
     w = F.write.Writer(st.fo, wschema, **kw)
     ops.append({"op": "create"})
     model.header = st.value()
-    # the header must be complete once the writer exists
-    try:
-        hl = refavro.parse_container(model.header, decode_records=False).header_len
-    except refavro.RefError as e:
-        raise Violation("header", "header-not-parsable-after-create", detail=str(e), scenario=desc)
-    if hl != len(model.header):
-        raise Violation("header", "bytes-after-header-at-create", detail={"header_len": hl, "stream_len": len(model.header)}, scenario=desc)
+    if model.header:
+        # whatever is on the stream once the writer exists must be exactly a complete header
+        # (an implementation that writes the header lazily leaves the stream empty here; the
+        # header is then pinned at the first read-back check instead)
+        try:
+            hl = refavro.parse_container(model.header, decode_records=False).header_len
+        except refavro.RefError as e:
+            raise Violation("header", "header-not-parsable-after-create", detail=str(e), scenario=desc)
+        if hl != len(model.header):
+            raise Violation("header", "bytes-after-header-at-create", detail={"header_len": hl, "stream_len": len(model.header)}, scenario=desc)
+    else:
+        model.header = None
 
     nops = 1 + ch.draw(40 if ctx.tier == "thorough" else 24)
     weights = [ch.pick([0, 2, 6]), ch.pick([0, 1, 3]), ch.pick([1, 3]), ch.pick([0, 1, 3]), ch.pick([0, 1, 2]), ch.pick([0, 1])]
@@ -360,3 +370,4 @@ def _history(F, ch, ctx, st):
     ctx.ev("history", json.dumps(jsonable(ops), sort_keys=True, default=str))
     if len(ops) >= 3 and (nflush_nonempty or model.records):
         ctx.key(json.dumps(schema, sort_keys=True), json.dumps(jsonable(ops), sort_keys=True, default=str))
+    return data, model, node, desc, ops
